@@ -11,15 +11,35 @@ from qucumber.utils import cplx, unitaries  # noqa: E402
 
 FILES = ["qucumber/utils/unitaries.py", "qucumber/utils/cplx.py", "qucumber/nn_states/neural_state.py"]
 RULE = ("case = (n, per-letter dictionary (default X,Y,Z plus user-added random unitaries / Gaussian-integer matrices), basis string, "
-        "explicit or model-derived psi / rho, batch of outcome states with repeats); all 3^n strings for n<=3 (quick) / n<=4 (thorough), sampled beyond; "
+        "explicit or model-derived psi / rho, batch of outcome states with repeats); ALL 3^n strings over XYZ for n<=3 (quick) / n<=4 (thorough) for EVERY kind "
+        "(psi explicit / from a ComplexWaveFunction, rho Hermitian-complex explicit / non-Hermitian explicit / from a DensityMatrix), sampled beyond "
+        "(n = 4,5 quick / n = 5 thorough: psi kinds only; n = 9..11: explicit operands only); "
+        "SCOPE NOTE rho: the quantifier's 'Hermitian and non-symmetric-complex rho' is read as Hermitian matrices with a non-zero (antisymmetric) imaginary part - "
+        "every explicit Hermitian rho generated has one (counter rho_hermitian_not_real_symmetric) and is checked at PROPERTY level against U rho U^dag; a "
+        "non-Hermitian matrix is not a density matrix and lies outside the quantifier: there rotate_rho returns K rho^H K^H (C04_rotate_rho), compared as an AUXILIARY "
+        "point only (rotate_rho_probs of such a matrix is still checked at property level: its diagonal is that of K rho K^H); "
+        "DICTIONARY RESOLUTION (kind dictres): states {ComplexWaveFunction, DensityMatrix, PositiveWaveFunction (no unitary_dict), explicit-operand stand-ins with / "
+        "without unitary_dict} x own dictionary {default, user (letters A,B added, X sometimes overridden)} x unitaries argument {None, {}, explicit user dictionary, "
+        "explicit dictionary without a Z key}, basis strings over the resolved dictionary's letters (XYABZ), plus strings with a letter in no dictionary "
+        "(KeyError outcome class), all four entry points, against numpy dense Kronecker products over the dictionary resolved by the harness's own re-statement "
+        "of the rule and against the model (unitariesOf / siteUs / *D); dictionaries must come back unmodified; "
+        "Z OVERRIDDEN (kind zoverride): create_dict(Z=<non-identity>) - rotate_psi / rotate_rho must equal the dense product; the fast paths leave Z sites alone "
+        "(model faithful; property-level oracle with the stable signature fast-path/dict-Z-not-identity = proposed known finding, proposed/F_C04_Z_override.md); "
+        "1-D states (kind vecstates): outcome classes only (outside the quantifier 'any batch'); "
         "exact tier (Gaussian integers, model over Int, compared exactly) and tolerance tier (default dictionary); "
-        "the fast paths' internals (_rotate_basis_state: expanded states and coefficients, in order) compared as auxiliary points with the model's enumeration; "
+        "the terms of the fast paths' sums, seen through the PUBLIC include_extras=True outputs with psi = all-ones (term i = coefficient Ut_i, paired with the "
+        "expanded state v_i), compared as a SET of (state, coefficient) pairs per sample with the model's enumeration (auxiliary; listing order, the private helper "
+        "_rotate_basis_state and the numpy/real-pair representation are NOT constrained: unrecognised output = informational counter, no mismatch); "
         "non-trivial iff the basis has a non-Z letter and psi/rho has a non-real entry; distinct by hash of (dictionary, basis, operand, path)")
 TH = {"rotate_psi": "C04_rotate_psi", "rotate_rho": "C04_rotate_rho / C04_rotate_rho_hermitian",
       "inner": "C04_inner_prod_enum_dense", "probs": "C04_rho_probs_enum_dense",
       "expand": "C04_expand_enumerates / C04_rotate_basis_state"}
 
-REQUIRED_THEOREMS = ["C04_index_convention", "C04_rotate_psi", "C04_rotate_rho", "C04_rotate_rho_hermitian", "C04_rotate_psi_loop",
+REQUIRED_THEOREMS = ["C04_unitaries_of", "C04_create_dict", "C04_rotate_psi_dict", "C04_rotate_psi_dict_errors", "C04_rotate_rho_dict",
+                     "C04_inner_prod_dict", "C04_rho_probs_dict", "C04_fastK_eq_dense_patched", "C04_fast_paths_ignore_unrotated", "C04_fastK_unitary",
+                     "C04_inner_prod_probs_sum", "C04_model_probs_physical_psi", "C04_model_probs_physical_pos", "C04_model_probs_physical",
+                     "C04_Z_override_fast_ne_dense",
+                     "C04_index_convention", "C04_rotate_psi", "C04_rotate_rho", "C04_rotate_rho_hermitian", "C04_rotate_psi_loop",
                      "C04_rotate_rho_loop", "C04_dense_eq_kronecker", "C04_fastK_eq_dense", "C04_expand_enumerates", "C04_rotate_basis_state",
                      "C04_inner_prod_enum", "C04_inner_prod_enum_dense", "C04_rho_probs_enum", "C04_rho_probs_enum_dense",
                      "C04_dense_unitary", "C04_psi_probs_sum", "C04_rho_probs_nonneg", "C04_rho_probs_sum",
@@ -73,10 +93,11 @@ def dense_K(mats):
 class FakeState:
     """minimal nn_state for the explicit-operand paths (unitaries.py only needs these attributes)"""
 
-    def __init__(self, n, udict):
+    def __init__(self, n, udict, has_dict=True):
         self.num_visible = n
         self.device = torch.device("cpu")
-        self.unitary_dict = udict
+        if has_dict:  # has_dict=False: a state WITHOUT the attribute (like PositiveWaveFunction)
+            self.unitary_dict = udict
         self._h = qc.PositiveWaveFunction(n, 1, gpu=False)
 
     def generate_hilbert_space(self, size=None, device=None):
@@ -97,32 +118,75 @@ def make_dict(rng, exact):
     return d, td
 
 
+def _canon_cplx(x):
+    """a complex numpy array from whatever a complex quantity is represented as: a numpy / torch complex array, or the library's
+    real-pair format (leading axis of size 2, real dtype); None when the representation is not recognised"""
+    try:
+        if hasattr(x, "detach"):
+            x = x.detach().cpu().numpy()
+        x = np.asarray(x)
+        if np.iscomplexobj(x):
+            return x.astype(complex)
+        if x.ndim >= 1 and x.shape[0] == 2 and x.dtype.kind in "fiu":
+            return x[0].astype(float) + 1j * x[1].astype(float)
+    except Exception:  # noqa: BLE001
+        pass
+    return None
+
+
 def expand_points(ctx, case, st, basis, td, states, n, us_enc, rot, exact, kind):
-    """auxiliary: the internals of the fast paths — `Ut, v = _rotate_basis_state(...)` (expanded states and coefficients IN THE
-    CODE'S ORDER) against the model's enumeration `Unitaries.rotateBasisState` (= expandStates + rotCoeff)"""
-    Ut, v = unitaries._rotate_basis_state(st, basis, torch.tensor(states, dtype=torch.double), unitaries=td)
-    Ut = np.asarray(Ut)
-    v = v.detach().cpu().numpy()
+    """auxiliary: the terms of the fast path's sum, observed through the PUBLIC `include_extras=True` outputs of rotate_psi_inner_prod
+    ("all the terms of the summation as well as the expanded basis states") with psi = the all-ones vector, so that term i of sample b is the
+    coefficient Ut_i itself, paired with the expanded state v_i. Compared with the model's enumeration `Unitaries.rotateBasisState`
+    (= expandStates + rotCoeff) as a SET of (state, coefficient) pairs per sample (sorted by state): the property does not constrain the order in
+    which the terms are listed, nor the private helper `_rotate_basis_state`, nor the representation (numpy complex or real-pair tensor) - an
+    output that cannot be canonicalised is counted as informational and produces no mismatch."""
     m = sum(rot)
-    shape_ok = Ut.shape == (2 ** m, len(states)) and v.shape == (2 ** m, len(states), n)
+    B = len(states)
     ctx.count(f"rotated_sites={m}")
+    try:
+        out = unitaries.rotate_psi_inner_prod(st, basis, torch.tensor(states, dtype=torch.double), unitaries=td,
+                                              psi=to_pair_tensor(np.ones(2 ** n)), include_extras=True)
+        terms = _canon_cplx(out[1])
+        v = out[2].detach().cpu().numpy() if hasattr(out[2], "detach") else np.asarray(out[2])
+    except Exception:  # noqa: BLE001  (the value path is checked elsewhere; this is only the localising view)
+        ctx.count("extras: not available (informational)")
+        return
+    if terms is None or terms.shape != (2 ** m, B) or v.shape != (2 ** m, B, n):
+        ctx.count("extras: representation not recognised (informational)")
+        return
     if ctx.driver is None:
         return
     sfx = "_int" if exact else ""
     r = ctx.driver.call("c04.expand" + sfx, n=n, us=us_enc, rot=rot, states=states)
-    mv = [e["v"] for e in r]                                   # B x 2^m x n
-    mU = np.array([[cdec(p, exact) for p in e["Ut"]] for e in r])  # B x 2^m
-    iv = np.rint(np.moveaxis(v, 0, 1)).astype(int).tolist() if shape_ok else {"shape": list(v.shape)}
-    ctx.point("_rotate_basis_state: expanded states v (order)", "aux", iv, mv, case, exact=True, theorem=TH["expand"],
-              sig=f"_rotate_basis_state.v/{kind}")
-    iU = np.moveaxis(Ut, 0, 1).ravel() if shape_ok else Ut.ravel()
-    ctx.point("_rotate_basis_state: coefficients Ut (order)", "aux", np.r_[iU.real, iU.imag], np.r_[mU.real.ravel(), mU.imag.ravel()], case,
-              scale=float(np.max(np.abs(mU))) + 1e-300, theorem=TH["expand"], sig=f"_rotate_basis_state.Ut/{kind}",
-              **({"rtol": 0, "atol": 0} if exact else {}))
+    iv_all, mv_all, iU, mU = [], [], [], []
+    same_order = True
+    for b in range(B):
+        ipairs = [(tuple(int(x) for x in np.rint(v[i, b])), terms[i, b]) for i in range(2 ** m)]
+        mpairs = [(tuple(int(x) for x in r[b]["v"][i]), cdec(r[b]["Ut"][i], exact)) for i in range(len(r[b]["v"]))]
+        same_order = same_order and [p[0] for p in ipairs] == [p[0] for p in mpairs]
+        ipairs.sort(key=lambda p: p[0])
+        mpairs.sort(key=lambda p: p[0])
+        iv_all.append([list(p[0]) for p in ipairs]); mv_all.append([list(p[0]) for p in mpairs])
+        iU += [p[1] for p in ipairs]; mU += [p[1] for p in mpairs]
+    ctx.count("extras: terms listed in the modelled order" if same_order else "extras: terms listed in another order (informational)")
+    ctx.point("fast path (include_extras): the SET of expanded states per sample", "aux", iv_all, mv_all, case, exact=True, theorem=TH["expand"],
+              sig=f"extras.v/{kind}")
+    iU, mU = np.array(iU), np.array(mU)
+    if iU.shape == mU.shape:
+        ctx.point("fast path (include_extras): coefficient paired with each expanded state", "aux", np.r_[iU.real, iU.imag], np.r_[mU.real, mU.imag], case,
+                  scale=float(np.max(np.abs(mU))) + 1e-300, theorem=TH["expand"], sig=f"extras.Ut/{kind}",
+                  **({"rtol": 0, "atol": 0} if exact else {}))
 
 
 # ------------------------------------------------------------------ one case
 def one_case(ctx, case):
+    if case.get("kind") == "dictres":
+        return dictres_case(ctx, case)
+    if case.get("kind") == "zoverride":
+        return zoverride_case(ctx, case)
+    if case.get("kind") == "vecstates":
+        return vecstates_case(ctx, case)
     n, basis, exact, kind = case["n"], case["basis"], case["exact"], case["kind"]
     ctx.current_case = case
     rng_seed = case["seed"]
@@ -175,6 +239,10 @@ def one_case(ctx, case):
             p = np.abs(impl) ** 2
             Z = float(st.normalization(space_t))
             ctx.oracle("rotated probs sum to Z (psi)", abs(p.sum() - Z) <= 1e-8 * Z, case, sig="probs-sum/psi", theorem="C04_psi_probs_sum")
+            ipf = from_pair_tensor(unitaries.rotate_psi_inner_prod(st, basis, space_t, unitaries=td, psi=None))
+            ctx.oracle("fast path: |rotate_psi_inner_prod(space)|^2 sums to the normalisation (psi from the model)",
+                       abs(float((np.abs(ipf) ** 2).sum()) - Z) <= 1e-8 * Z, case, detail={"sum": float((np.abs(ipf) ** 2).sum()), "Z": Z},
+                       sig="probs-sum/psi-fast", theorem="C04_model_probs_physical_psi")
             # history: new parameters written in place, SAME state / space / batch objects -> results must follow the new psi
             qc.set_rbm(st.rbm_am, qc.rand_rbm_params(rng, n, 2, 0.9), inplace=True)
             if hasattr(st, "rbm_ph"):
@@ -210,6 +278,9 @@ def one_case(ctx, case):
             rho = (a + a.conj().T) if herm else a
             if herm and not exact:
                 rho = a @ a.conj().T  # PSD
+            if herm and N > 1 and not np.any(np.abs(rho.imag) > 0):  # Hermitian but NOT real-symmetric (the quantifier's "non-symmetric-complex")
+                rho[0, N - 1] += 1j
+                rho[N - 1, 0] -= 1j
             rho_arg = to_pair_tensor(rho)
         nontriv = any(rot) and bool(np.any(np.abs(rho.imag) > 0))
         ctx.case({"n": n, "basis": basis, "kind": kind, "seed": rng_seed, "exact": exact}, nontrivial=nontriv,
@@ -221,13 +292,25 @@ def one_case(ctx, case):
         scale = float(np.max(np.abs(dense))) + 1e-300
         impl = from_pair_tensor(unitaries.rotate_rho(st, basis, space_t, unitaries=td, rho=rho_arg))
         if herm:
+            if np.any(np.abs(rho.imag) > 0):
+                ctx.count("rho_hermitian_not_real_symmetric(property level)")
+                if any(rot) and not np.allclose(K @ rho.T @ K.conj().T, dense, rtol=1e-9, atol=1e-8 * scale):
+                    ctx.count("rho_hermitian: U rho U^dag distinguishable from U rho^T U^dag")
             ok = np.allclose(impl, dense, rtol=1e-9, atol=1e-8 * scale)
             ctx.oracle("rotate_rho == U rho U^dag", bool(ok), case, detail={"impl": str(impl[0, :4]), "dense": str(dense[0, :4])},
                        sig=f"rotate_rho/{kind}", theorem=TH["rotate_rho"])
         else:
+            # SCOPE NOTE (audit item C04-1): a non-Hermitian matrix is not a density matrix and lies outside the quantifier ("Hermitian and
+            # non-symmetric-complex rho"). As coded rotate_rho returns K rho^H K^H there (C04_rotate_rho); K rho K^H (the statement's formula) would be
+            # just as acceptable. Auxiliary only; a mismatch only when the result is neither.
             ctx.count("nonhermitian_rho(aux only)")
-            ctx.point("rotate_rho(non-Hermitian) == K rho^H K^H", "aux", np.r_[impl.real.ravel(), impl.imag.ravel()],
-                      np.r_[denseH.real.ravel(), denseH.imag.ravel()], case, scale=scale, rtol=1e-9, atol=1e-8)
+            as_coded = bool(np.allclose(impl, denseH, rtol=1e-9, atol=1e-8 * scale))
+            as_stated = bool(np.allclose(impl, dense, rtol=1e-9, atol=1e-8 * scale))
+            ctx.count("nonhermitian_rho: K rho^H K^H (as modelled)" if as_coded else
+                      ("nonhermitian_rho: K rho K^H (differs from the model, informational)" if as_stated else "nonhermitian_rho: neither"))
+            if not as_stated:
+                ctx.point("rotate_rho(non-Hermitian) == K rho^H K^H", "aux", np.r_[impl.real.ravel(), impl.imag.ravel()],
+                          np.r_[denseH.real.ravel(), denseH.imag.ravel()], case, scale=scale, rtol=1e-9, atol=1e-8)
         batch = [rng.randrange(N) for _ in range(min(2 * N, 12))] + [0, N - 1]
         states = [space[k] for k in batch]
         pr = unitaries.rotate_rho_probs(st, basis, torch.tensor(states, dtype=torch.double), unitaries=td, rho=rho_arg).detach().numpy()
@@ -251,10 +334,10 @@ def one_case(ctx, case):
                        bool(np.allclose(rr2, d2, rtol=1e-9, atol=1e-8 * sc2) and np.allclose(pr2, np.real(np.diag(d2)), rtol=1e-9, atol=1e-8 * sc2)),
                        case, sig=f"history/{kind}", theorem=TH["rotate_rho"])
             ctx.oracle("rotated probs >= 0 and sum to Z (rho)", bool(np.all(full >= -1e-9 * Z) and abs(full.sum() - Z) <= 1e-8 * Z), case,
-                       detail={"probs": full.tolist(), "Z": Z}, sig="probs-physical/rho", theorem="C04_rho_probs_nonneg, C04_rho_probs_sum")
+                       detail={"probs": full.tolist(), "Z": Z}, sig="probs-physical/rho", theorem="C04_model_probs_physical (C04_rho_probs_nonneg, C04_rho_probs_sum, C02_posSemidef, C02_trace)")
         if ctx.driver is not None and not case.get("big"):
             rho_enc = [[cenc(z, exact) for z in row] for row in rho]
-            if n <= 3 or ctx.tier == "thorough":
+            if (n <= 3 or ctx.tier == "thorough") and (herm or not np.allclose(impl, dense, rtol=1e-9, atol=1e-8 * scale) or np.allclose(dense, denseH)):
                 m = ctx.driver.call("c04.rotate_rho" + sfx, n=n, us=us_enc, rho=rho_enc)
                 mv = np.array([[cdec(p, exact) for p in row] for row in m])
                 ctx.point("rotate_rho", "property" if herm else "aux", np.r_[impl.real.ravel(), impl.imag.ravel()], np.r_[mv.real.ravel(), mv.imag.ravel()],
@@ -300,22 +383,360 @@ def dict_case(ctx):
                       theorem="C04_dZ/dX/dY", sig=f"dict/{L}", rtol=4e-16, atol=0.0)
 
 
+# ------------------------------------------------------------------ audit round: dictionary resolution (_unitaries_of)
+FINDING_Z = "fast-path/dict-Z-not-identity"   # proposed known finding (proposed/F_C04_Z_override.md)
+
+
+def _import_random():
+    import random as _r
+    return _r
+
+
+def _dict_enc(d):
+    """numpy dictionary -> [[letter, 2x2 encoded]] for the driver; None (no dictionary) stays None, {} becomes []"""
+    return None if d is None else [[k, m2enc(v, False)] for k, v in d.items()]
+
+
+def _tdict(d, through_api=True):
+    """numpy dictionary -> torch dictionary; through create_dict (which adds/overrides the defaults) or as a plain dict"""
+    if d is None:
+        return None
+    pairs = {k: to_pair_tensor(v) for k, v in d.items()}
+    return unitaries.create_dict(**pairs) if through_api else pairs
+
+
+def _snapshot(td):
+    return None if td is None else {k: v.clone() for k, v in td.items()}
+
+
+def _same_dict(td, snap):
+    if td is None:
+        return snap is None
+    return list(td.keys()) == list(snap.keys()) and all(torch.equal(td[k], snap[k]) for k in td)
+
+
+def _outcome(f):
+    try:
+        return {"value": f()}
+    except Exception as e:  # noqa: BLE001  (outcome class of the implementation)
+        return {"error": type(e).__name__}
+
+
+def _cmp_outcome(ctx, name, level, impl, model, case, scale, sig, theorem, enc):
+    """impl: {"value": complex/real numpy array} | {"error": cls}; model: {"value": encoded} | {"error": cls}.
+    Values are compared when BOTH sides return one. An exception on either side only happens on inputs outside the property's quantifier
+    (a basis letter that is in no dictionary, ...): whether / what the code raises there is not constrained by the property, so the outcome
+    class is recorded as an informational counter and never produces a mismatch (level-"property" callers check 'must not raise' themselves)."""
+    if "error" in impl or "error" in model:
+        same = ("error" in impl) == ("error" in model)
+        ctx.count("outcome class outside the quantifier: " + ("as modelled" if same else "differs from the model (informational)"))
+        return
+    iv = np.asarray(impl["value"])
+    mv = enc(model["value"])
+    ctx.point(name, level, np.r_[iv.real.ravel(), iv.imag.ravel()], np.r_[mv.real.ravel(), mv.imag.ravel()], case, scale=scale, sig=sig, theorem=theorem)
+
+
+def _dec_vec(v):
+    return np.array([cdec(p, False) for p in v])
+
+
+def _dec_mat(v):
+    return np.array([[cdec(p, False) for p in row] for row in v])
+
+
+def _dec_real(v):
+    return unbits(v).astype(float) + 0j
+
+
+def dictres_case(ctx, case):
+    """`_unitaries_of`: which dictionary a rotation uses — the one given (if truthy), else the state's own, else (a state without
+    `unitary_dict`: PositiveWaveFunction) the default — and the lookup of the basis letters in it.  Oracle: numpy dense Kronecker
+    product over the dictionary resolved BY THIS FUNCTION's own re-statement of the rule; model: ops c04.*_dict
+    (Unitaries.unitariesOf / siteUs / rotatePsiD / rotateRhoD / rotatePsiInnerProdD / rotateRhoProbsD)."""
+    ctx.current_case = case
+    rng = _import_random().Random(case["seed"])
+    n, basis, state, gk, ok_ = case["n"], case["basis"], case["state"], case["given"], case["own"]
+    N = 2 ** n
+    r2 = 1.0 / np.sqrt(2.0)   # the default dictionary written out (independent of create_dict): rows = the +1, -1 eigen-bras of sigma_x / sigma_y
+    default = {"X": np.array([[1, 1], [1, -1]], dtype=complex) * r2, "Y": np.array([[1, -1j], [1, 1j]], dtype=complex) * r2,
+               "Z": np.eye(2, dtype=complex)}
+
+    def user():
+        d = dict(default)
+        d["A"], d["B"] = rand_unitary(rng), rand_unitary(rng)
+        if rng.random() < 0.5:
+            d["X"] = rand_unitary(rng)  # "the given operators will overwrite the default matrices if they share the same key"
+        return d
+
+    own_np = None if ok_ == "none" else (dict(default) if ok_ == "default" else user())
+    given_np = {"none": None, "empty": {}}.get(gk, 0)
+    if given_np == 0:
+        given_np = user()
+        if gk == "explicit_noZ":
+            del given_np["Z"]
+    # the rule, re-stated: the one given (a non-empty dictionary), else the state's own, else the default
+    res = given_np if given_np else (own_np if own_np is not None else default)
+    td_own = None if own_np is None or ok_ == "default" else _tdict(own_np)
+    td_given = _tdict(given_np, through_api=(gk != "explicit_noZ")) if given_np else given_np
+    space = qc.all_states(n)
+    space_t = torch.tensor(space, dtype=torch.double)
+    if state == "complex":
+        st = qc.make_complex(n, 2, qc.rand_rbm_params(rng, n, 2, 0.7), qc.rand_rbm_params(rng, n, 2, 1.0), unitary_dict=td_own)
+    elif state == "positive":
+        st = qc.make_positive(n, 2, qc.rand_rbm_params(rng, n, 2, 0.7))
+    elif state == "density":
+        st = qc.make_density(n, 2, 2, qc.rand_prbm_params(rng, n, 2, 2, 0.7), qc.rand_prbm_params(rng, n, 2, 2, 1.0, d_zero=True), unitary_dict=td_own)
+    else:
+        st = FakeState(n, td_own if td_own is not None else unitaries.create_dict(), has_dict=(state == "fake"))
+    has_own = hasattr(st, "unitary_dict")
+    assert has_own == (own_np is not None), "harness: state / own-dictionary mismatch"
+    do_psi = state in ("complex", "positive", "fake", "fake_nodict")
+    do_rho = state in ("density", "fake", "fake_nodict")
+    explicit = state.startswith("fake")
+    letters_ok = all(b in res for b in basis)
+    rot_ok = all(b in res for b in basis if b != "Z")
+    rot = [b != "Z" for b in basis]
+    ctx.case({k: case[k] for k in ("n", "basis", "state", "given", "own", "seed")}, nontrivial=any(rot) and letters_ok,
+             sample={"n": n, "basis": basis, "kind": "dictres", "state": state, "given": gk, "own": ok_})
+    ctx.count("kind=dictres"); ctx.count(f"dictres:state={state}"); ctx.count(f"dictres:given={gk}"); ctx.count(f"dictres:own={ok_}")
+    ctx.count("dictres:letters-" + ("ok" if letters_ok else ("rotated-ok" if rot_ok else "missing")))
+    K = dense_K([res[b] for b in basis]) if letters_ok else None
+    Kf = dense_K([res[b] if b != "Z" else np.eye(2) for b in basis]) if rot_ok else None  # what a dictionary WITHOUT a Z key can only mean
+    batch = [rng.randrange(N) for _ in range(min(2 * N, 8))] + [0, N - 1]
+    states = [space[k] for k in batch]
+    states_t = torch.tensor(states, dtype=torch.double)
+    snap_given, snap_own = _snapshot(td_given), _snapshot(getattr(st, "unitary_dict", None))
+    tag = f"{state}/{gk}/{ok_}"
+    g_enc, o_enc = _dict_enc(given_np), _dict_enc(own_np)
+
+    def run_pair(name, level_ok, impl_f, dense_f, model_op, model_args, dec, th, expect_ok, scale):
+        impl = _outcome(impl_f)
+        if expect_ok:
+            if "error" in impl:
+                ctx.oracle(f"{name} over the resolved dictionary must not raise", False, case, detail=impl, sig=f"dictres/{name}/raised", theorem=th)
+            else:
+                want = dense_f()
+                ctx.oracle(f"{name}(unitaries=<{gk}>) == dense Kronecker product over the RESOLVED dictionary (given, else own, else default)",
+                           bool(np.allclose(impl["value"], want, rtol=1e-9, atol=1e-8 * scale)), case,
+                           detail={"impl": str(np.asarray(impl["value"]).ravel()[:6]), "dense": str(np.asarray(want).ravel()[:6]), "resolved_keys": sorted(res)},
+                           sig=f"dictres/{name}", theorem=th)
+        if ctx.driver is not None:
+            model = ctx.driver.call(model_op, n=n, given=g_enc, own=o_enc, basis=basis, **model_args)
+            _cmp_outcome(ctx, f"{name} [{tag}]", level_ok if expect_ok else "aux", impl, model, case, scale, f"dictres/{name}", th, dec)
+
+    if do_psi:
+        if explicit:
+            psi = np.array([complex(rng.gauss(0, 1), rng.gauss(0, 1)) for _ in range(N)])
+            psi_arg = to_pair_tensor(psi)
+        else:
+            psi = from_pair_tensor(st.psi(space_t))
+            psi_arg = None
+        sc = float(np.max(np.abs(psi))) * 2 ** (n / 2) + 1e-300
+        psi_enc = [cenc(z, False) for z in psi]
+        run_pair("rotate_psi", "property", lambda: from_pair_tensor(unitaries.rotate_psi(st, basis, space_t, unitaries=td_given, psi=psi_arg)),
+                 lambda: K @ psi, "c04.rotate_psi_dict", {"psi": psi_enc}, _dec_vec, "C04_unitaries_of, C04_rotate_psi_dict", letters_ok, sc)
+        run_pair("rotate_psi_inner_prod", "property",
+                 lambda: from_pair_tensor(unitaries.rotate_psi_inner_prod(st, basis, states_t, unitaries=td_given, psi=psi_arg)),
+                 lambda: (K @ psi)[batch], "c04.inner_prod_dict", {"psi": psi_enc, "states": states}, _dec_vec,
+                 "C04_unitaries_of, C04_inner_prod_dict", letters_ok, sc)
+        if rot_ok and not letters_ok:  # dictionary without a Z key: the fast path never looks Z up
+            ip = _outcome(lambda: from_pair_tensor(unitaries.rotate_psi_inner_prod(st, basis, states_t, unitaries=td_given, psi=psi_arg)))
+            if "value" in ip:  # (raising here would be just as acceptable: the basis string is not over the dictionary)
+                ctx.point("rotate_psi_inner_prod with a dictionary that has no Z key == identity at the Z sites", "aux",
+                          np.r_[ip["value"].real, ip["value"].imag], np.r_[((Kf @ psi)[batch]).real, ((Kf @ psi)[batch]).imag], case, scale=sc,
+                          sig="dictres/noZ-key")
+    if do_rho:
+        if explicit:
+            a = np.array([[complex(rng.gauss(0, 1), rng.gauss(0, 1)) for _ in range(N)] for _ in range(N)])
+            rho = a @ a.conj().T
+            rho_arg = to_pair_tensor(rho)
+        else:
+            rho = from_pair_tensor(st.rho(space_t, space_t))
+            rho_arg = None
+        sc = float(np.max(np.abs(rho))) * N + 1e-300
+        rho_enc = [[cenc(z, False) for z in row] for row in rho]
+        run_pair("rotate_rho", "property", lambda: from_pair_tensor(unitaries.rotate_rho(st, basis, space_t, unitaries=td_given, rho=rho_arg)),
+                 lambda: K @ rho @ K.conj().T, "c04.rotate_rho_dict", {"rho": rho_enc}, _dec_mat, "C04_unitaries_of, C04_rotate_rho_dict", letters_ok, sc)
+        run_pair("rotate_rho_probs", "property",
+                 lambda: unitaries.rotate_rho_probs(st, basis, states_t, unitaries=td_given, rho=rho_arg).detach().numpy() + 0j,
+                 lambda: np.real(np.diag(K @ rho @ K.conj().T))[batch], "c04.rho_probs_dict", {"rho": rho_enc, "states": states}, _dec_real,
+                 "C04_unitaries_of, C04_rho_probs_dict", letters_ok, sc)
+    ctx.oracle("the given dictionary and the state's own dictionary are left untouched by the rotation helpers",
+               bool(_same_dict(td_given, snap_given) and _same_dict(getattr(st, "unitary_dict", None), snap_own)), case,
+               sig="dictres/dict-mutated", theorem="C04_unitaries_of")
+
+
+# ------------------------------------------------------------------ audit round: a dictionary whose Z entry is not the identity (FINDING, proposed/F_C04_Z_override.md)
+def zoverride_case(ctx, case):
+    """create_dict(Z=<non-identity>) is accepted ("will overwrite the default matrices"). rotate_psi / rotate_rho apply unitaries["Z"]
+    (dense product, as the statement says); the fast paths test the LETTER and leave Z sites alone -> they differ from the dense Kronecker
+    product.  Property-level oracle with the stable signature FINDING_Z (proposed known finding); the model is faithful to the code
+    (C04_inner_prod_enum with fastK; C04_fast_paths_ignore_unrotated; witness C04_Z_override_fast_ne_dense)."""
+    ctx.current_case = case
+    rng = _import_random().Random(case["seed"])
+    n, basis, exact, state = case["n"], case["basis"], case["exact"], case["state"]
+    N = 2 ** n
+    if exact:
+        d = {L: rand_gint(rng, (2, 2)) for L in "XYAZ"}
+        while np.array_equal(d["Z"], np.eye(2)):
+            d["Z"] = rand_gint(rng, (2, 2))
+    else:
+        d = {k: from_pair_tensor(v) for k, v in unitaries.create_dict().items()}
+        d["A"] = rand_unitary(rng)
+        d["Z"] = np.array([[1, 1], [1, -1]], dtype=complex) / np.sqrt(2) if case.get("hadamard") else rand_unitary(rng)
+    td = unitaries.create_dict(**{k: to_pair_tensor(v) for k, v in d.items()})  # through the public API
+    space = qc.all_states(n)
+    space_t = torch.tensor(space, dtype=torch.double)
+    K = dense_K([d[b] for b in basis])
+    Kf = dense_K([d[b] if b != "Z" else np.eye(2) for b in basis])
+    rot = [b != "Z" for b in basis]
+    us_enc = [m2enc(d[b], exact) for b in basis]
+    sfx = "_int" if exact else ""
+    batch = [rng.randrange(N) for _ in range(min(2 * N, 8))] + [0, N - 1]
+    states = [space[k] for k in batch]
+    states_t = torch.tensor(states, dtype=torch.double)
+    ctx.case({k: case[k] for k in ("n", "basis", "exact", "state", "seed")}, nontrivial=True,
+             sample={"n": n, "basis": basis, "kind": "zoverride", "exact": exact, "state": state})
+    ctx.count("kind=zoverride"); ctx.count(f"zoverride:state={state}"); ctx.count("exact" if exact else "tolerance")
+    tol = {"rtol": 0, "atol": 0} if exact else {}
+    if state in ("fake", "complex"):
+        if state == "complex":
+            st = qc.make_complex(n, 2, qc.rand_rbm_params(rng, n, 2, 0.7), qc.rand_rbm_params(rng, n, 2, 1.0), unitary_dict=td)
+            psi, psi_arg, given = from_pair_tensor(st.psi(space_t)), None, None  # the state's own dictionary
+        else:
+            st = FakeState(n, unitaries.create_dict())
+            psi = rand_gint(rng, (N,)) if exact else np.array([complex(rng.gauss(0, 1), rng.gauss(0, 1)) for _ in range(N)])
+            psi_arg, given = to_pair_tensor(psi), td
+        sc = float(np.max(np.abs(K @ psi))) + float(np.max(np.abs(psi))) + 1e-300
+        impl = from_pair_tensor(unitaries.rotate_psi(st, basis, space_t, unitaries=given, psi=psi_arg))
+        ctx.oracle("rotate_psi == kron(U) psi with a non-identity Z entry", bool(np.allclose(impl, K @ psi, rtol=1e-9, atol=1e-9 * sc)), case,
+                   detail={"impl": str(impl[:6]), "dense": str((K @ psi)[:6])}, sig="zoverride/rotate_psi", theorem=TH["rotate_psi"])
+        ip = from_pair_tensor(unitaries.rotate_psi_inner_prod(st, basis, states_t, unitaries=given, psi=psi_arg))
+        ctx.oracle("rotate_psi_inner_prod == (kron(U) psi)[states] for a dictionary whose Z entry is not the identity",
+                   bool(np.allclose(ip, (K @ psi)[batch], rtol=1e-9, atol=1e-9 * sc)), case,
+                   detail={"impl": str(ip[:6]), "dense": str((K @ psi)[batch][:6]), "Z": str(d["Z"].tolist())}, sig=FINDING_Z,
+                   theorem="C04_inner_prod_dict (hypothesis on the Z entry), C04_Z_override_fast_ne_dense")
+        ctx.point("rotate_psi_inner_prod == identity at the sites whose LETTER is Z (as coded)", "aux", np.r_[ip.real, ip.imag],
+                  np.r_[((Kf @ psi)[batch]).real, ((Kf @ psi)[batch]).imag], case, scale=sc, sig="zoverride/inner-as-coded", rtol=1e-9, atol=1e-9)
+        if ctx.driver is not None:
+            m = ctx.driver.call("c04.rotate_psi" + sfx, n=n, us=us_enc, psi=[cenc(z, exact) for z in psi])
+            mv = np.array([cdec(p, exact) for p in m])
+            ctx.point("rotate_psi (Z overridden)", "property", np.r_[impl.real, impl.imag], np.r_[mv.real, mv.imag], case, scale=sc,
+                      theorem=TH["rotate_psi"], sig="zoverride/rotate_psi", **tol)
+            m = ctx.driver.call("c04.inner_prod" + sfx, n=n, us=us_enc, rot=rot, psi=[cenc(z, exact) for z in psi], states=states)
+            mv = np.array([cdec(p, exact) for p in m])
+            ctx.point("rotate_psi_inner_prod (Z overridden) vs the model of the code", "aux", np.r_[ip.real, ip.imag], np.r_[mv.real, mv.imag], case,
+                      scale=sc, theorem="C04_inner_prod_enum, C04_fast_paths_ignore_unrotated", sig="zoverride/inner-model", **tol)
+    else:
+        if state == "density":
+            st = qc.make_density(n, 2, 2, qc.rand_prbm_params(rng, n, 2, 2, 0.7), qc.rand_prbm_params(rng, n, 2, 2, 1.0, d_zero=True), unitary_dict=td)
+            rho, rho_arg, given = from_pair_tensor(st.rho(space_t, space_t)), None, None
+        else:
+            st = FakeState(n, unitaries.create_dict())
+            a = rand_gint(rng, (N, N)) if exact else np.array([[complex(rng.gauss(0, 1), rng.gauss(0, 1)) for _ in range(N)] for _ in range(N)])
+            rho = (a + a.conj().T) if exact else a @ a.conj().T
+            rho_arg, given = to_pair_tensor(rho), td
+        dense = K @ rho @ K.conj().T
+        fast = Kf @ rho @ Kf.conj().T
+        sc = float(np.max(np.abs(dense))) + float(np.max(np.abs(fast))) + 1e-300
+        impl = from_pair_tensor(unitaries.rotate_rho(st, basis, space_t, unitaries=given, rho=rho_arg))
+        ctx.oracle("rotate_rho == U rho U^dag with a non-identity Z entry", bool(np.allclose(impl, dense, rtol=1e-9, atol=1e-8 * sc)), case,
+                   detail={"impl": str(impl[0, :4]), "dense": str(dense[0, :4])}, sig="zoverride/rotate_rho", theorem=TH["rotate_rho"])
+        pr = unitaries.rotate_rho_probs(st, basis, states_t, unitaries=given, rho=rho_arg).detach().numpy()
+        want = np.real(np.diag(dense))[batch]
+        ctx.oracle("rotate_rho_probs == diag(U rho U^dag)[states] for a dictionary whose Z entry is not the identity",
+                   bool(np.allclose(pr, want, rtol=1e-9, atol=1e-8 * sc)), case,
+                   detail={"impl": pr[:6].tolist(), "dense": want[:6].tolist(), "Z": str(d["Z"].tolist())}, sig=FINDING_Z,
+                   theorem="C04_rho_probs_dict (hypothesis on the Z entry), C04_Z_override_fast_ne_dense")
+        ctx.point("rotate_rho_probs == identity at the sites whose LETTER is Z (as coded)", "aux", pr, np.real(np.diag(fast))[batch], case, scale=sc,
+                  sig="zoverride/probs-as-coded", rtol=1e-9, atol=1e-8)
+        if ctx.driver is not None:
+            rho_enc = [[cenc(z, exact) for z in row] for row in rho]
+            m = ctx.driver.call("c04.rho_probs" + sfx, n=n, us=us_enc, rot=rot, rho=rho_enc, states=states)
+            mv = np.array([float(p) if exact else float(unbits([p])[0]) for p in m])
+            ctx.point("rotate_rho_probs (Z overridden) vs the model of the code", "aux", pr, mv, case, scale=sc,
+                      theorem="C04_rho_probs_enum, C04_fast_paths_ignore_unrotated", sig="zoverride/probs-model", **tol)
+
+
+# ------------------------------------------------------------------ audit round: `states` given as ONE 1-D vector (outside the quantifier)
+def vecstates_case(ctx, case):
+    ctx.current_case = case
+    rng = _import_random().Random(case["seed"])
+    n, basis, probs, explicit = case["n"], case["basis"], case["probs"], case["explicit"]
+    N = 2 ** n
+    space = qc.all_states(n)
+    space_t = torch.tensor(space, dtype=torch.double)
+    k = rng.randrange(N)
+    v1 = space_t[k].clone()
+    ctx.case({kk: case[kk] for kk in ("n", "basis", "probs", "explicit", "seed")}, nontrivial=False)
+    ctx.count("kind=vecstates(1-D states, outcome class)")
+    if probs:
+        st = qc.make_density(n, 2, 2, qc.rand_prbm_params(rng, n, 2, 2, 0.7), qc.rand_prbm_params(rng, n, 2, 2, 1.0, d_zero=True))
+        op = st.rho(space_t, space_t)
+        impl = _outcome(lambda: unitaries.rotate_rho_probs(st, basis, v1, rho=op if explicit else None).detach().numpy())
+        ref = None
+    else:
+        st = qc.make_complex(n, 2, qc.rand_rbm_params(rng, n, 2, 0.7), qc.rand_rbm_params(rng, n, 2, 1.0))
+        op = st.psi(space_t)
+        impl = _outcome(lambda: from_pair_tensor(unitaries.rotate_psi_inner_prod(st, basis, v1, psi=op if explicit else None)))
+        ref = from_pair_tensor(op)[k]
+    if ctx.driver is not None:  # outcome class (raises / returns): informational only, the property says "any BATCH of outcome states"
+        model = ctx.driver.call("c04.vector_states", probs=probs, any_rotated=any(b != "Z" for b in basis))
+        same = ("error" in impl) == ("error" in model)
+        ctx.count("vecstates: outcome " + ("as modelled" if same else "differs from the model (informational)"))
+    if "value" in impl and ref is not None:
+        z = np.asarray(impl["value"]).ravel()
+        ctx.point("rotate_psi_inner_prod(all-Z basis, 1-D state) == psi(state)", "aux", [z[0].real, z[0].imag] if z.size == 1 else list(z.shape),
+                  [ref.real, ref.imag], case, scale=abs(ref) + 1e-300, sig="vecstates/value")
+
+
+def gen_audit_cases(ctx, thorough):
+    rng = ctx.rng
+    # (1) dictionary resolution
+    combos = []
+    for state in ("complex", "density", "fake"):
+        for own in ("default", "user"):
+            for given in ("none", "empty", "explicit", "explicit_noZ"):
+                combos.append((state, own, given))
+    for state in ("positive", "fake_nodict"):
+        for given in ("none", "empty", "explicit", "explicit_noZ"):
+            combos.append((state, "none", given))
+    for (state, own, given) in combos:
+        for rep in range(3 if thorough else 1):
+            n = rng.randrange(1, 4 if thorough else 3) if state in ("density", "fake", "fake_nodict") else rng.randrange(1, 4)
+            keys = "XYABZ" if (given.startswith("explicit") or own == "user") else "XYZ"
+            bases = ["".join(rng.choice(keys) for _ in range(n)) for _ in range(2)]
+            bases.append("".join(rng.choice("XYAB"[: len(keys) - 1]) for _ in range(n)))          # no Z at all
+            bases.append("".join(rng.choice(keys) for _ in range(n - 1)) + "Q")                    # a letter in no dictionary: KeyError
+            if n >= 2:
+                bases.append("Z" + "".join(rng.choice(keys.replace("Z", "")) for _ in range(n - 1)))  # a Z site and rotated sites
+            if keys == "XYZ":
+                bases.append("".join(rng.choice("XYZ") for _ in range(n - 1)) + "A")             # user letter asked of a default dictionary: KeyError
+            for basis in bases:
+                yield {"kind": "dictres", "n": n, "basis": basis, "state": state, "own": own, "given": given, "seed": rng.randrange(1 << 30)}
+    # (2) Z overridden by a non-identity matrix (FINDING, proposed/F_C04_Z_override.md): deterministic first case, then random ones
+    yield {"kind": "zoverride", "n": 2, "basis": "XZ", "exact": False, "state": "fake", "hadamard": True, "seed": 16}
+    for state in ("fake", "fake_rho", "complex", "density"):
+        for rep in range(4 if thorough else 2):
+            n = rng.randrange(1, 4 if thorough else 3)
+            b = [rng.choice("XYAZ") for _ in range(n)]
+            b[rng.randrange(n)] = "Z"
+            exact = state.startswith("fake") and rep % 2 == 1
+            yield {"kind": "zoverride", "n": n, "basis": "".join(b), "exact": exact, "state": state, "seed": rng.randrange(1 << 30)}
+    # (3) one 1-D state instead of a batch: outcome classes
+    for probs in (False, True):
+        for explicit in (False, True):
+            for basis in ("ZZ", "XZ", "YX"):
+                yield {"kind": "vecstates", "n": 2, "basis": basis, "probs": probs, "explicit": explicit, "seed": rng.randrange(1 << 30)}
+
+
 def gen_cases(ctx, thorough):
     kinds = ["psi_explicit", "psi_model", "rho_herm", "rho_nonherm", "rho_model"]
     nmax_full = 4 if thorough else 3
     for n in range(1, nmax_full + 1):
-        strings = qc.all_bases(n, "XYZ")
-        if n == 3 and not thorough:
-            ctx.rng.shuffle(strings)
-            strings = strings[:14] + ["XYZ", "YZX", "ZZY"]
-        if n == 4 and thorough:
-            pass
+        strings = qc.all_bases(n, "XYZ")   # ALL 3^n strings, every kind (audit item C04-5: no sub-sampling, no skipping)
         for basis in strings:
             for kind in kinds:
-                if kind.startswith("rho") and n > 3 and not thorough:
-                    continue
-                if n == 4 and kind != "psi_explicit" and ctx.rng.random() < 0.6:
-                    continue
                 yield {"n": n, "basis": basis, "exact": False, "kind": kind, "seed": ctx.rng.randrange(1 << 30)}
     # user-added letters and the exact tier
     for n in range(1, 4 if thorough else 3):
@@ -344,6 +765,8 @@ def run(ctx):
     dict_case(ctx)
     for case in gen_cases(ctx, ctx.tier == "thorough"):
         one_case(ctx, case)
+    for case in gen_audit_cases(ctx, ctx.tier == "thorough"):
+        one_case(ctx, case)
 
 
 def search(ctx):
@@ -351,6 +774,8 @@ def search(ctx):
     try:
         dict_case(ctx)
         for case in gen_cases(ctx, True):
+            one_case(ctx, case)
+        for case in gen_audit_cases(ctx, True):
             one_case(ctx, case)
     finally:
         ctx.driver = drv
